@@ -17,6 +17,11 @@ EXPLANATION = (
     "BucketIndex::range = [2^i, 2^(i+1)-1] (MAX for i = 255), KBucketRef::contains = (BucketIndex::new(d) == index).")
 ASSUMPTIONS = ["u64 BitXor / leading_zeros, byteorder BigEndian read/write and SHA-256 (external) behave as specified",
                "the algebraic metric laws of XOR on fixed-width integers are taken as mathematics, not re-proved"]
+TECHNIQUE = ("All patterns are evaluated on a normalised view of the MIR facts (vrules/lib_kad.canon): parameters by position, every "
+             "single-definition local expanded to its initialiser, closure captures by index, trivial crate-local helpers (accessors, one-comparison "
+             "predicates, one-line constructors) replaced by their bodies, private fields resolved by their type, comparisons normalised over operand "
+             "order / mirrored operators / method-call form / `!`, guard sets closed under bool hoisting. Behaviour-preserving refactorings that must stay "
+             "silent are archived in /verif/neutral/kad (01-12 and x1-author-combinators.diff).")
 SELFTEST = [
     {"mutation": "KeyBytes::distance: `a ^ b` -> `a | b`", "caught_by": "xor/distance = Distance(be(self) ^ be(other))"},
     {"mutation": "KeyBytes::for_distance: from_big_endian -> from_little_endian", "caught_by": "xor/for_distance = be^-1(be(self) ^ d)"},
@@ -27,7 +32,7 @@ SELFTEST = [
 
 KK = r"^libp2p_kad::kbucket::key::"
 BE_SELF = "libp2p_kad::kbucket::key::U256::from_big_endian(sha2::digest::hybrid_array::Array::as_slice(self.0))"
-BE_OTHER = "libp2p_kad::kbucket::key::U256::from_big_endian(sha2::digest::hybrid_array::Array::as_slice(std::convert::AsRef::as_ref(other).0))"
+BE_OTHER = "libp2p_kad::kbucket::key::U256::from_big_endian(sha2::digest::hybrid_array::Array::as_slice(std::convert::AsRef::as_ref(#2).0))"
 XOR = "libp2p_kad::<kbucket::key::U256 as std::ops::BitXor>::bitxor"
 
 
@@ -36,7 +41,10 @@ def rets(b):
 
 
 def check(ctx):
-    prog = ctx.prog
+    prog = lk.canon(ctx)
+    kp = r"kbucket::key::Key$"
+    BYTES = lk.fld(prog, kp, r"^kbucket::key::KeyBytes$")
+    PRE = lk.fld(prog, kp, r"^T$")
     d = ctx.body(K, KK + r"KeyBytes::distance$")
     rs = rets(d)
     want = ["libp2p_kad::kbucket::key::Distance::Distance{0: %s(%s, %s)}" % (XOR, BE_SELF, BE_OTHER),
@@ -47,7 +55,7 @@ def check(ctx):
     ctx.ob("xor", "distance has a single path (no special cases)", not any(d.switch_info(bi) for bi in d.live), lk.where(d), "no branch")
     f = ctx.body(K, KK + r"KeyBytes::for_distance$")
     rs = rets(f)
-    inner = ["%s(%s, d.0)" % (XOR, BE_SELF), "%s(d.0, %s)" % (XOR, BE_SELF)]
+    inner = ["%s(%s, #2.0)" % (XOR, BE_SELF), "%s(#2.0, %s)" % (XOR, BE_SELF)]
     want = ["libp2p_kad::kbucket::key::KeyBytes::KeyBytes{0: <sha2::digest::hybrid_array::Array as std::convert::From>::from(libp2p_kad::kbucket::key::U256::to_big_endian(%s))}" % i for i in inner]
     mir.RENDER_MAX[0] = 30
     rs = rets(f)
@@ -57,36 +65,36 @@ def check(ctx):
     names = {strip_generics(b.call_name(s.term)).split("::")[-1] for b in (d, f) for s in b.call_sites()}
     ctx.ob("xor", "same byte order in both directions", "from_big_endian" in names and "to_big_endian" in names and not (names & {"from_little_endian", "to_little_endian"}), msg=str(sorted(names)))
     kd = ctx.body(K, KK + r"Key::distance$")
-    ctx.ob("xor", "Key::distance delegates to its hash bytes", rets(kd) == ["libp2p_kad::kbucket::key::KeyBytes::distance(self.bytes, other)"], lk.where(kd), str(rets(kd)))
+    ctx.ob("xor", "Key::distance delegates to its hash bytes", rets(kd) == ["libp2p_kad::kbucket::key::KeyBytes::distance(self.%s, #2)" % BYTES], lk.where(kd), str(rets(kd)))
     kf = ctx.body(K, KK + r"Key::for_distance$")
-    ctx.ob("xor", "Key::for_distance delegates to its hash bytes", rets(kf) == ["libp2p_kad::kbucket::key::KeyBytes::for_distance(self.bytes, d)"], lk.where(kf), str(rets(kf)))
+    ctx.ob("xor", "Key::for_distance delegates to its hash bytes", rets(kf) == ["libp2p_kad::kbucket::key::KeyBytes::for_distance(self.%s, #2)" % BYTES], lk.where(kf), str(rets(kf)))
     ar = ctx.body(K, r"kbucket::key::Key as std::convert::AsRef>::as_ref$")
-    ctx.ob("xor", "Key as AsRef<KeyBytes> = its hash bytes", rets(ar) == ["self.bytes"], lk.where(ar), str(rets(ar)))
+    ctx.ob("xor", "Key as AsRef<KeyBytes> = its hash bytes", rets(ar) == ["self.%s" % BYTES], lk.where(ar), str(rets(ar)))
     ar = ctx.body(K, r"kbucket::key::KeyBytes as std::convert::AsRef>::as_ref$")
     ctx.ob("xor", "KeyBytes as AsRef<KeyBytes> = itself", rets(ar) == ["self"], lk.where(ar), str(rets(ar)))
     fk = ctx.body(K, r"kbucket::key::KeyBytes as std::convert::From>::from$")
-    ctx.ob("xor", "KeyBytes::from(Key) = its hash bytes", rets(fk) == ["key.bytes"], lk.where(fk), str(rets(fk)))
+    ctx.ob("xor", "KeyBytes::from(Key) = its hash bytes", rets(fk) == ["#1.%s" % BYTES], lk.where(fk), str(rets(fk)))
     eq = ctx.body(K, r"kbucket::key::Key as std::cmp::PartialEq>::eq$")
-    ctx.ob("xor", "key equality is equality of the hash bytes", rets(eq) == ["libp2p_kad::<kbucket::key::KeyBytes as std::cmp::PartialEq>::eq(self.bytes, other.bytes)"], lk.where(eq), str(rets(eq)))
+    ctx.ob("xor", "key equality is equality of the hash bytes", rets(eq) in (["libp2p_kad::<kbucket::key::KeyBytes as std::cmp::PartialEq>::eq(self.%s, #2.%s)" % (BYTES, BYTES)], ["<sha2::digest::hybrid_array::Array as std::cmp::PartialEq>::eq(self.%s.0, #2.%s.0)" % (BYTES, BYTES)]), lk.where(eq), str(rets(eq)))
     kbe = ctx.body(K, r"kbucket::key::KeyBytes as std::cmp::PartialEq>::eq$")
-    ctx.ob("xor", "KeyBytes equality compares the 32 bytes", len(rets(kbe)) == 1 and re.match(r"^<?[\w:<> ]*PartialEq>?::eq\(self\.0, other\.0\)$", rets(kbe)[0]) is not None, lk.where(kbe), str(rets(kbe)))
+    ctx.ob("xor", "KeyBytes equality compares the 32 bytes", len(rets(kbe)) == 1 and re.match(r"^<?[\w:<> ]*PartialEq>?::eq\(self\.0, #2\.0\)$", rets(kbe)[0]) is not None, lk.where(kbe), str(rets(kbe)))
     hs = ctx.body(K, r"kbucket::key::Key as std::hash::Hash>::hash$")
     hc = [R(hs, s) for s in hs.call_sites()]
-    ctx.ob("xor", "key hashing uses the hash bytes only", hc == ["<sha2::digest::hybrid_array::Array as std::hash::Hash>::hash(self.bytes.0, state)"], lk.where(hs), str(hc))
+    ctx.ob("xor", "key hashing uses the hash bytes only", hc == ["<sha2::digest::hybrid_array::Array as std::hash::Hash>::hash(self.%s.0, #2)" % BYTES], lk.where(hs), str(hc))
     # constructors
     ctors = prog.find(K, r"kbucket::key::Key as std::convert::From>::from$")
     ctx.floor("xor", "Key::from impls", ctors, 4)
     n_hash = 0
     for b in ctors:
         rs = rets(b)
-        ok = len(rs) == 1 and (re.match(r"^libp2p_kad::kbucket::key::Key::Key\{preimage: (\w+), bytes: libp2p_kad::kbucket::key::KeyBytes::KeyBytes\{0: <D as sha2::Digest>::digest\((libp2p_core::multihash::Multihash|libp2p_core::PeerId)::to_bytes\(\1\)\)\}\}$", rs[0])
-                               or re.match(r"^libp2p_kad::kbucket::key::Key::new\(\w+\)$", rs[0]))
+        ok = len(rs) == 1 and (re.match(r"^libp2p_kad::kbucket::key::Key::Key\{%s: #1, %s: libp2p_kad::kbucket::key::KeyBytes::KeyBytes\{0: <D as sha2::Digest>::digest\((libp2p_core::multihash::Multihash|libp2p_core::PeerId)::to_bytes\(#1\)\)\}\}$" % (PRE, BYTES), rs[0])
+                               or re.match(r"^libp2p_kad::kbucket::key::Key::new\(#1\)$", rs[0]))
         n_hash += bool(ok)
         ctx.ob("xor", "Key::from hashes the bytes of its own preimage", bool(ok), lk.where(b), str(rs)[:240])
     kn = ctx.body(K, KK + r"Key::new$")
-    ctx.ob("xor", "Key::new hashes the bytes of its own preimage", rets(kn) == ["libp2p_kad::kbucket::key::Key::Key{preimage: preimage, bytes: libp2p_kad::kbucket::key::KeyBytes::new(std::borrow::Borrow::borrow(preimage))}"], lk.where(kn), str(rets(kn))[:240])
+    ctx.ob("xor", "Key::new hashes the bytes of its own preimage", rets(kn) in (["libp2p_kad::kbucket::key::Key::Key{%s: #1, %s: libp2p_kad::kbucket::key::KeyBytes::new(std::borrow::Borrow::borrow(#1))}" % (PRE, BYTES)], ["libp2p_kad::kbucket::key::Key::Key{%s: #1, %s: libp2p_kad::kbucket::key::KeyBytes::KeyBytes{0: <D as sha2::Digest>::digest(std::borrow::Borrow::borrow(#1))}}" % (PRE, BYTES)]), lk.where(kn), str(rets(kn))[:240])
     kbn = ctx.body(K, KK + r"KeyBytes::new$")
-    ctx.ob("xor", "KeyBytes::new = SHA-256 digest of the value", rets(kbn) == ["libp2p_kad::kbucket::key::KeyBytes::KeyBytes{0: <D as sha2::Digest>::digest(std::borrow::Borrow::borrow(value))}"], lk.where(kbn), str(rets(kbn)))
+    ctx.ob("xor", "KeyBytes::new = SHA-256 digest of the value", rets(kbn) == ["libp2p_kad::kbucket::key::KeyBytes::KeyBytes{0: <D as sha2::Digest>::digest(std::borrow::Borrow::borrow(#1))}"], lk.where(kbn), str(rets(kbn)))
     who = sorted({b.npath for b in prog.bodies(K) for s in b.agg_sites(r"kbucket::key::Key$")})
     ctx.ob("xor", "Key{preimage, bytes} built only by Key::new / From / Clone", all(re.search(r"kbucket::key::Key(::new| as std::convert::From>::from| as std::clone::Clone>::clone)$", w) for w in who) and bool(who), msg=str(who))
     # U256
@@ -96,32 +104,39 @@ def check(ctx):
     ctx.ob("u256", "Distance wraps one U256", [f["ty"] for f in a["variants"][0]["fields"]] == ["kbucket::key::U256"], msg=str(a["variants"][0]["fields"]))
     bx = ctx.body(K, r"kbucket::key::U256 as std::ops::BitXor>::bitxor$")
     stores = [s for s in bx.stmt_sites(lambda st: st["k"] == "assign" and any(pr["k"] == "index" for pr in st["p"].get("pr", ())))]
-    ok = len(stores) == 1 and R(bx, stores[0]) == "BitXor(self.0[std::iter::range::next(iter)@Some.0], other.0[std::iter::range::next(iter)@Some.0])"
+    m_ = re.match(r"^BitXor\(self\.0\[(.*)\], #2\.0\[(.*)\]\)$", R(bx, stores[0])) if len(stores) == 1 else None
+    ok = m_ is not None and m_.group(1) == m_.group(2) and m_.group(1).endswith("@Some.0") and "Range{start: 0, end: 4}" in m_.group(1)
     ctx.ob("u256", "U256 ^ is word-wise XOR of equal word indices", ok, lk.where(bx), str([R(bx, s) for s in stores]))
     if stores:
         st = stores[0].stmt
         ix = [pr for pr in st["p"]["pr"] if pr["k"] == "index"][0]["l"]
-        ctx.ob("u256", "U256 ^ stores word i into word i", render(bx.local_expr(ix)) == "std::iter::range::next(iter)@Some.0", stores[0].loc(), render(bx.local_expr(ix)))
+        ctx.ob("u256", "U256 ^ stores word i into word i", m_ is not None and render(bx.local_expr(ix)) == m_.group(1), stores[0].loc(), render(bx.local_expr(ix)))
     t = " ".join(R(bx, s) for s in bx.call_sites())
     ctx.ob("u256", "U256 ^ covers all 4 words", "std::ops::Range::Range{start: 0, end: 4}" in t, lk.where(bx), t[:160])
     oc = ctx.body(K, r"kbucket::key::U256 as std::cmp::Ord>::cmp$")
     rs = rets(oc)
     AS = "libp2p_kad::<kbucket::key::U256 as std::convert::AsRef>::as_ref"
-    ok = rs == ["std::iter::Iterator::cmp(std::iter::Iterator::rev(core::slice::iter(%s(self))), std::iter::Iterator::rev(core::slice::iter(%s(other))))" % (AS, AS)]
+    ok = rs in (["std::iter::Iterator::cmp(std::iter::Iterator::rev(core::slice::iter(%s(self))), std::iter::Iterator::rev(core::slice::iter(%s(#2))))" % (AS, AS)],
+                ["std::iter::Iterator::cmp(std::iter::Iterator::rev(core::slice::iter(self.0)), std::iter::Iterator::rev(core::slice::iter(#2.0)))"])
+    asr = ctx.body(K, r"kbucket::key::U256 as std::convert::AsRef>::as_ref$")
+    ctx.ob("u256", "U256 as AsRef<[u64]> exposes its words", rets(asr) == ["self.0"], lk.where(asr), str(rets(asr)))
     ctx.ob("u256", "U256 ordering compares words from the most significant, self first", ok, lk.where(oc), str(rs)[:300])
     dc = ctx.body(K, r"kbucket::key::Distance as std::cmp::Ord>::cmp$")
-    ctx.ob("u256", "Distance ordering = ordering of its integer", rets(dc) == ["libp2p_kad::<kbucket::key::U256 as std::cmp::Ord>::cmp(self.0, other.0)"], lk.where(dc), str(rets(dc)))
+    ctx.ob("u256", "Distance ordering = ordering of its integer", rets(dc) == ["libp2p_kad::<kbucket::key::U256 as std::cmp::Ord>::cmp(self.0, #2.0)"], lk.where(dc), str(rets(dc)))
     de = ctx.body(K, r"kbucket::key::Distance as std::cmp::PartialEq>::eq$")
-    ctx.ob("u256", "Distance equality = equality of its integer", rets(de) == ["libp2p_kad::<kbucket::key::U256 as std::cmp::PartialEq>::eq(self.0, other.0)"], lk.where(de), str(rets(de)))
+    ctx.ob("u256", "Distance equality = equality of its integer", rets(de) in (["libp2p_kad::<kbucket::key::U256 as std::cmp::PartialEq>::eq(self.0, #2.0)"], ["std::array::equality::eq(self.0.0, #2.0.0)"]), lk.where(de), str(rets(de)))
     dd = ctx.body(K, r"kbucket::key::Distance as std::default::Default>::default$")
-    ctx.ob("u256", "Distance::default is the zero distance", len(rets(dd)) == 1 and "U256 as std::default::Default>::default()" in rets(dd)[0], lk.where(dd), str(rets(dd)))
+    ctx.ob("u256", "Distance::default is the zero distance", rets(dd) in (["libp2p_kad::kbucket::key::Distance::Distance{0: libp2p_kad::<kbucket::key::U256 as std::default::Default>::default()}"], ["libp2p_kad::kbucket::key::Distance::Distance{0: libp2p_kad::kbucket::key::U256::zero()}"], ["libp2p_kad::kbucket::key::Distance::Distance{0: libp2p_kad::kbucket::key::U256::U256{0: repeat{0: 0}}}"]), lk.where(dd), str(rets(dd)))
     lz = ctx.body(K, KK + r"U256::leading_zeros$")
     t = " ".join(R(lz, s) for s in lz.call_sites())
     words = [render(lz.switch_info(bi)[0]) for bi in lz.live if lz.switch_info(bi) and render(lz.switch_info(bi)[0]).startswith("Eq(self.0[")]
-    ok = words == ["Eq(self.0[SubWithOverflow(SubWithOverflow(4, std::iter::range::next(iter)@Some.0).0, 1).0], 0)"] and "Range{start: 0, end: 4}" in t
-    ctx.ob("u256", "leading_zeros scans words 3..0 (most significant first), +64 per zero word", ok and sorted(render(lz.rvalue_expr(x[3])) for x in lz.defs[lib.local_by_name(lz, "r")] if x[0] == "stmt")[:2] == ["0", "AddWithOverflow(r, 64).0"], lk.where(lz), str(words))
+    ok = len(words) == 1 and re.match(r"^Eq\(self\.0\[SubWithOverflow\(SubWithOverflow\(4, .*Range\{start: 0, end: 4\}.*@Some\.0\)\.0, 1\)\.0\], 0\)$", words[0]) is not None
+    rl = lz.site_expr(lk.ret_sites(lz)[0]) if len(lk.ret_sites(lz)) == 1 else ("unknown", "?")
+    acc = sorted(render(lz.rvalue_expr(x[3])) for x in lz.defs.get(rl[1], []) if x[0] == "stmt") if rl[0] == "local" else []
+    nm = render(rl)
+    ctx.ob("u256", "leading_zeros scans words 3..0 (most significant first), +64 per zero word", ok and acc[:2] == ["0", "AddWithOverflow(%s, 64).0" % nm] and len(acc) == 3 and acc[2].startswith("AddWithOverflow(%s, core::num::leading_zeros(self.0[" % nm), lk.where(lz), "%s %s" % (words, acc))
     bt = ctx.body(K, KK + r"U256::bit$")
-    ctx.ob("u256", "bit(i) tests bit i%64 of word i/64", rets(bt) == ["Ne(BitAnd(self.0[Div(index, 64)], Shl(1, Rem(index, 64))), 0)"], lk.where(bt), str(rets(bt)))
+    ctx.ob("u256", "bit(i) tests bit i%64 of word i/64", rets(bt) == ["Ne(BitAnd(self.0[Div(#2, 64)], Shl(1, Rem(#2, 64))), 0)"], lk.where(bt), str(rets(bt)))
     # ---- index
     il = ctx.body(K, KK + r"Distance::ilog2$")
     rs = rets(il)
@@ -133,16 +148,20 @@ def check(ctx):
     ctx.ob("index", "NUM_BUCKETS = 256 = bit width of the distance", nb == 256, msg=str(nb))
     bn = ctx.body(K, r"^libp2p_kad::kbucket::BucketIndex::new$")
     rs = rets(bn)
-    ctx.ob("index", "BucketIndex::new = ilog2(d).map(..)", len(rs) == 1 and re.match(r"^std::option::Option::map\(libp2p_kad::kbucket::key::Distance::ilog2\(d\), closure:[^\[]*\[\]\)$", rs[0]) is not None, lk.where(bn), str(rs))
-    cl = ctx.body(K, r"^libp2p_kad::kbucket::BucketIndex::new::\{closure#0\}$")
-    ctx.ob("index", "BucketIndex::new wraps ilog2 unchanged", rets(cl) == ["libp2p_kad::kbucket::BucketIndex::BucketIndex{0: (i as usize)}"], lk.where(cl), str(rets(cl)))
+    ctx.ob("index", "BucketIndex::new = ilog2(d).map(..)", len(rs) == 1 and re.match(r"^std::option::Option::map\(libp2p_kad::kbucket::key::Distance::ilog2\(#1\), closure:[^\[]*\[\]\)$", rs[0]) is not None, lk.where(bn), str(rs))
+    cls = [c for c in prog.bodies(K) if c.kind == "closure" and lk.root_fn(prog, c) is bn]
+    rs = [R(c, s) for c in cls for s in lk.ret_sites(c)]
+    ctx.ob("index", "BucketIndex::new wraps ilog2 unchanged", rs == ["libp2p_kad::kbucket::BucketIndex::BucketIndex{0: (#2 as usize)}"], lk.where(bn), str(rs))
     g = ctx.body(K, r"^libp2p_kad::kbucket::BucketIndex::get$")
     ctx.ob("index", "BucketIndex::get returns the index unchanged", rets(g) == ["self.0"], lk.where(g), str(rets(g)))
     ct = ctx.body(K, r"^libp2p_kad::kbucket::KBucketRef::contains$")
     rs = rets(ct)
-    ctx.ob("index", "KBucketRef::contains(d) = BucketIndex::new(d) is this bucket's index", len(rs) == 1 and rs[0].startswith("std::option::Option::is_some_and(libp2p_kad::kbucket::BucketIndex::new(d), closure:"), lk.where(ct), str(rs)[:200])
-    cc = ctx.body(K, r"^libp2p_kad::kbucket::KBucketRef::contains::\{closure#0\}$")
-    ctx.ob("index", "contains compares with the bucket's own index", rets(cc) == ["libp2p_kad::<kbucket::BucketIndex as std::cmp::PartialEq>::eq(i, ^*self.index)"], lk.where(cc), str(rets(cc)))
+    ctx.ob("index", "KBucketRef::contains(d) = BucketIndex::new(d) is this bucket's index", len(rs) == 1 and rs[0].startswith("std::option::Option::is_some_and(libp2p_kad::kbucket::BucketIndex::new(#2), closure:") and rs[0].endswith("[self])"), lk.where(ct), str(rs)[:200])
+    ccs = [c for c in prog.bodies(K) if c.kind == "closure" and lk.root_fn(prog, c) is ct]
+    es = [c.site_expr(s) for c in ccs for s in lk.ret_sites(c)]
+    IDXF = lk.fld(prog, r"kbucket::KBucketRef$", r"BucketIndex$")
+    ok = len(es) == 1 and lk.cmp_norm(es[0], r"^#2(\.0)?$", r"^\^0\.%s(\.0)?$" % IDXF) == "Eq"
+    ctx.ob("index", "contains compares with the bucket's own index", ok, lk.where(ct), str([render(e) for e in es]))
     rg = ctx.body(K, r"^libp2p_kad::kbucket::BucketIndex::range$")
     mir.RENDER_MAX[0] = 30
     rs = {}
@@ -157,3 +176,23 @@ def check(ctx):
     mx = "%s{0: libp2p_kad::<kbucket::key::U256 as std::ops::Sub>::sub(%s(%s(2), %s(AddWithOverflow(self.0, 1).0)), 1)}" % (D, P, F, F)
     ok = rs.get("['false']") == "tuple{0: %s, 1: %s}" % (mn, mx) and (rs.get("['true']") or "").startswith("tuple{0: %s, 1: %s{0: const:" % (mn, D)) and "MAX" in (rs.get("['true']") or "")
     ctx.ob("index", "BucketIndex::range = [2^i, 2^(i+1) - 1], upper end U256::MAX for i = 255", ok, lk.where(rg), str(rs)[:500])
+
+# thorough-tier sensitivity self-test (vrules/selftest.py): one-edit variants of the source that break the property
+MUTANTS = [
+    {"name": 'distance uses |', "file": 'protocols/kad/src/kbucket/key.rs',
+     "find": '        Distance(a ^ b)',
+     "replace": '        Distance(a | b)',
+     "expect": '^xor/distance = Distance', "why": 'not a metric'},
+    {"name": 'ilog2 off by one', "file": 'protocols/kad/src/kbucket/key.rs',
+     "find": '(256 - self.0.leading_zeros()).checked_sub(1)',
+     "replace": '(256 - self.0.leading_zeros()).checked_sub(2)',
+     "expect": '^index/ilog2', "why": 'wrong bucket'},
+    {"name": 'BucketIndex + 1', "file": 'protocols/kad/src/kbucket.rs',
+     "find": 'd.ilog2().map(|i| BucketIndex(i as usize))',
+     "replace": 'd.ilog2().map(|i| BucketIndex(i as usize + 1))',
+     "expect": '^index/BucketIndex::new wraps', "why": 'wrong bucket'},
+    {"name": 'for_distance little endian', "file": 'protocols/kad/src/kbucket/key.rs',
+     "find": '        let key_int = U256::from_big_endian(self.0.as_slice()) ^ d.0;',
+     "replace": '        let key_int = U256::from_little_endian(self.0.as_slice()) ^ d.0;',
+     "expect": '^xor/for_distance', "why": 'for_distance no longer inverts distance'},
+]
